@@ -21,6 +21,7 @@ inductive Exc where
   | NonTermination      -- a `while` loop outran the variant the translator was told
   | UnicodeDecodeError
   | UnicodeEncodeError
+  | LookupError         -- a `LookupError` that is neither KeyError nor IndexError (`lib.encodings.EncodingLookupError`)
   deriving DecidableEq, Repr, Inhabited
 
 def Exc.name : Exc → String
@@ -38,6 +39,7 @@ def Exc.name : Exc → String
   | .NonTermination => "NonTermination"
   | .UnicodeDecodeError => "UnicodeDecodeError"
   | .UnicodeEncodeError => "UnicodeEncodeError"
+  | .LookupError => "LookupError"
 
 /-- `int(b)` for a Python bool. -/
 @[inline] def b2i (b : Bool) : Int := if b then 1 else 0
